@@ -136,9 +136,16 @@ func c02SyncAfter(d *ledger.Driver) {
 	if err != nil || n == nil {
 		return
 	}
-	for i := 0; i < 3; i++ {
+	// first the probes on the ledger as it was loaded (whatever tips it has), then on a single tip
+	world.OverspendProbesOnAnyTips(n, nil)
+	// merge the tips of the synced node (a proposal takes two at a time) until one is left: then every vertex it holds is
+	// counted by its balance answers
+	for i := 0; i < 60; i++ {
 		t := world.NewTrx(world.Users[0], world.Users[1].Addr, spice.Melange{}, []byte("after sync"))
 		world.Propose(n, &t, "on the synced node")
+		if i >= 2 && len(n.Prev.Leaves) == 1 {
+			break
+		}
 	}
 	world.CheckConservation(n)
 	world.OverspendProbes(n, nil)
